@@ -186,8 +186,9 @@ def judge(data, records, blocked):
     if got != records:
         return 'reference parser finds %d records (lengths %s), %d were written (lengths %s)' % (
             len(got), [len(r) for r in got][:4], len(records), [len(r) for r in records][:4])
-    if stop != 'terminator':
-        return 'no zero-length terminator after the records (%s)' % stop
+    if stop not in ('terminator', 'eof', 'short_prefix'):
+        # (whether the zero-length terminator is present is C03's subject; here the file must read back exactly)
+        return 'bytes after the last record do not end the file cleanly (%s)' % stop
     try:
         back = list(mciipm.VbsReader(io.BytesIO(data), blocked=blocked))
     except Exception as ex:
